@@ -407,6 +407,16 @@ def ifexp_to_statement(tree):
                     blk[i] = new
                     do(new.body)          # nested conditional expressions in the arms
                     do(new.orelse)
+            elif isinstance(st, ast.Return) and isinstance(st.value, ast.IfExp):
+                # return A if c else B   ->   if c: return A  else: return B
+                v = st.value
+                a = ast.copy_location(ast.Return(value=v.body), st)
+                b = ast.copy_location(ast.Return(value=v.orelse), st)
+                new = ast.copy_location(ast.If(test=v.test, body=[a], orelse=[b]), st)
+                new._from_ifexp = True
+                blk[i] = new
+                do(new.body)
+                do(new.orelse)
             i += 1
     for node, fld, blk in list(_blocks(tree)):
         do(blk)
@@ -459,13 +469,34 @@ def unroll_constant_loops(tree):
     def const_elt(x):
         return isinstance(x, ast.Constant) or (isinstance(x, ast.Tuple) and all(isinstance(y, ast.Constant) for y in x.elts))
 
+    def ref_elt(x):
+        # a row of constants and references (names, attribute chains): written into the body instead of being read up front
+        return isinstance(x, ast.Tuple) and len(x.elts) > 1 and all(_reference_expr(y) for y in x.elts) and \
+            not all(isinstance(y, ast.Constant) for y in x.elts)
+
+    def quiet_body(body, tv):
+        # the body cannot change what the references evaluate to: tests, and stores into a subscript of a plain local
+        for b in body:
+            for x in ast.walk(b):
+                if isinstance(x, ast.Call) and not effect_free(x):
+                    return False
+                if isinstance(x, (ast.Attribute,)) and isinstance(x.ctx, (ast.Store, ast.Del)):
+                    return False
+                if isinstance(x, ast.Name) and isinstance(x.ctx, (ast.Store, ast.Del)):
+                    return False
+                if isinstance(x, ast.Subscript) and isinstance(x.ctx, (ast.Store, ast.Del)) and not isinstance(x.value, ast.Name):
+                    return False
+                if isinstance(x, (ast.AugAssign, ast.Delete, ast.With, ast.Try, ast.While, ast.For)):
+                    return False
+        return True
+
     class Sub(ast.NodeTransformer):
         def __init__(self, m):
             self.m = m
 
         def visit_Name(self, n):
             if n.id in self.m and isinstance(n.ctx, ast.Load):
-                return ast.copy_location(ast.Constant(value=self.m[n.id]), n)
+                return ast.copy_location(copy.deepcopy(self.m[n.id]), n)
             return n
     for fn in [x for x in ast.walk(tree) if isinstance(x, (ast.FunctionDef, ast.AsyncFunctionDef))]:
         for blk in _own_blocks(fn):
@@ -477,9 +508,22 @@ def unroll_constant_loops(tree):
                     if isinstance(it, ast.Name) and consts.get(it.id) is not None and \
                             not any(isinstance(x, ast.Name) and x.id == it.id and isinstance(x.ctx, ast.Store) for x in ast.walk(fn)):
                         it = consts[it.id]
+                    if isinstance(it, ast.Name) and i > 0:
+                        # a table held in a local defined just before the loop and used nowhere else
+                        prev = blk[i - 1]
+                        if isinstance(prev, ast.Assign) and len(prev.targets) == 1 and isinstance(prev.targets[0], ast.Name) and \
+                                prev.targets[0].id == it.id and isinstance(prev.value, (ast.Tuple, ast.List)) and \
+                                sum(1 for x in ast.walk(fn) if isinstance(x, ast.Name) and x.id == it.id) == 2:
+                            it = prev.value
+                            local_table = True
+                        else:
+                            local_table = False
+                    else:
+                        local_table = False
                     tv = [st.target.id] if isinstance(st.target, ast.Name) else \
                         ([e.id for e in st.target.elts] if isinstance(st.target, ast.Tuple) and all(isinstance(e, ast.Name) for e in st.target.elts) else None)
-                    if isinstance(it, (ast.Tuple, ast.List)) and 0 < len(it.elts) <= 16 and all(const_elt(x) for x in it.elts) and tv is not None and \
+                    if isinstance(it, (ast.Tuple, ast.List)) and 0 < len(it.elts) <= 16 and tv is not None and \
+                            (all(const_elt(x) for x in it.elts) or (all(ref_elt(x) or const_elt(x) for x in it.elts) and quiet_body(st.body, tv))) and \
                             not any(isinstance(x, (ast.Break, ast.Continue, ast.FunctionDef, ast.Lambda)) for b in st.body for x in ast.walk(b)) and \
                             not any(isinstance(x, ast.Name) and x.id in tv and isinstance(x.ctx, (ast.Store, ast.Del)) for b in st.body for x in ast.walk(b)) and \
                             sum(1 for x in ast.walk(fn) if isinstance(x, ast.Name) and x.id in tv) == \
@@ -488,10 +532,14 @@ def unroll_constant_loops(tree):
                                 (isinstance(x, ast.Tuple) and len(x.elts) == len(tv) and len(tv) > 1) for x in it.elts):
                         new = []
                         for x in it.elts:
-                            vals = [x.value] if isinstance(x, ast.Constant) else [y.value for y in x.elts]
+                            vals = [x] if isinstance(x, ast.Constant) else list(x.elts)
                             for b in st.body:
                                 new.append(Sub(dict(zip(tv, vals))).visit(copy.deepcopy(b)))
-                        blk[i:i + 1] = new
+                        if local_table:
+                            blk[i - 1:i + 1] = new
+                            i -= 1
+                        else:
+                            blk[i:i + 1] = new
                         continue
                 i += 1
     # setattr with a literal name
